@@ -18,7 +18,8 @@ RULE_TEXT = ("C06-R: per loop-body path of Interface::run - Incomplete: no repor
              "the handler call and the handler's error is propagated by `?` unchanged."
              " C06-C03V/C03N: the conversion rules and the argument-vector rule of C03 (no wrapping or truncating conversion, no discarded push)."
              " C06-T/C06-D: on every witness interface the emitted trie accepts exactly the declared spellings and the dispatcher has one arm per declaration (rules C01-T/D) - an undefined header is a fault. C06-F: `no call` only for an empty message."
-             " C06-N: every recogniser that can itself run across a newline (take_while over a class containing 10, slice by a data value) delivers Value::String or Value::Arbitrary - a complete message is never answered Incomplete.")
+             " C06-N: every recogniser that can itself run across a newline (take_while over a class containing 10, slice by a data value) delivers Value::String or Value::Arbitrary - a complete message is never answered Incomplete."
+             " C06-C01M: a mnemonic that no key equals is undefined - the whole-name lookup rule C01-M.")
 
 PROCESS = "microscpi::interface::Interface::process"
 EXECUTE = runsum.EXECUTE
@@ -103,6 +104,8 @@ def run(ck):
     import skeleton
     with ck.under("C01-", "C06-C01"):
         c01.rule_X(ck, lib)
+        # ... and a header with a mnemonic that no key equals is undefined: the run-time lookup matches whole names only
+        c01.rule_M(ck, lib)
     parsefields.check(ck, lib, skeleton.Skeleton(ck, lib), "C06-F", ("empty",))
     # a header that no declaration spells is a fault: the emitted trie accepts exactly the declared spellings (C01-T/D on
     # the witness interfaces)
